@@ -56,6 +56,11 @@ POOL = ["a", "b", "", "a b", "A", " "]
 
 
 # ----------------------------------------------------------------------------- oracle
+def fm(model, text):
+    """a second, model-dependent oracle for the two-index family: the vector of `text` under embedding model `model`"""
+    return f("%s|%s" % (model, text)) if model != "m" else f(text)
+
+
 def f(text):
     h = hashlib.sha256(text.encode("utf-8")).digest()
     return [(b - 128) / 128.0 for b in h[:8]]
@@ -207,6 +212,17 @@ def cases(tier, seed):
         }
 
 
+    # --- two (three) indexes with different embedding models and the same cache configuration in one process
+    ntwo = 300 if tier == "quick" else 3000
+    rngt = random.Random("two-%s-%s" % (tier, seed))
+    for _ in range(ntwo):
+        i += 1
+        k = rngt.randint(2, 6)
+        texts = [rngt.choice(["shared text", "a", "b b", "q%d" % rngt.randint(0, 3)]) for _ in range(k)]
+        yield {"id": i, "fam": "twoidx", "mode": "twoidx", "cache": rngt.choice(CACHES), "nidx": rngt.choice([2, 2, 3]), "texts": texts,
+               "batching": rngt.random() < 0.5, "shuffle": rngt.random() < 0.5, "share_dir": rngt.random() < 0.5, "seed": rngt.randrange(1 << 30)}
+
+
 # ----------------------------------------------------------------------------- worker side
 _W = {}
 _CUR = [None]
@@ -244,12 +260,12 @@ def setup_worker():
         engine_name = "verif_gated_c19"
 
         def __init__(self, embedding_model=None, **kw):
-            pass
+            self.model = embedding_model or "m"
 
         def encode(self, documents):
             ctl = _CUR[0]
             ctl.sync_calls += 1
-            return [f(d) for d in documents]
+            return [fm(self.model, d) for d in documents]
 
         async def encode_async(self, documents):
             ctl = _CUR[0]
@@ -263,7 +279,7 @@ def setup_worker():
                 await fut
             elif not ctl.auto:
                 ctl.instant_calls += 1
-            return [f(d) for d in docs]
+            return [fm(self.model, d) for d in docs]
 
     register_embedding_provider(GatedModel)
 
@@ -413,10 +429,96 @@ def _pick(rng, script, pos, enabled, w):
     return rng.choice([e for e in enabled if e[0] == c])
 
 
+def run_twoidx(case):
+    """Two (three) indexes with DIFFERENT embedding models and the same cache configuration in one process; the same texts go
+    through all of them, in a generated order. Every index must get the vectors of ITS model. Model calls return at once
+    (the scheduling families cover interleavings; this one covers what the indexes share)."""
+    import os
+    import shutil
+    import tempfile
+
+    W = _W
+    asyncio = W["asyncio"]
+    rng = random.Random(case["seed"])
+    shm = "/dev/shm" if os.path.isdir("/dev/shm") and os.access("/dev/shm", os.W_OK) else None
+    shared_dir = case["cache"].startswith("fs") and case.get("share_dir", True)
+    tmpdirs = []
+    ctl = Ctl(rng, 0)
+    ctl.auto = True
+    _CUR[0] = ctl
+    models = ["mA", "mB", "mC"][: case["nidx"]]
+    texts = case["texts"]
+    sample = {"family": "twoidx", "cache": case["cache"], "models": models, "texts": texts, "use_batching": case["batching"], "same_cache_dir": bool(shared_dir)}
+    base = {"nontrivial": True, "sample": sample, "cfg": case["cache"], "mode": "twoidx"}
+    obs = {"requests": 0, "vectors_compared": 0, "searches_compared": 0, "two_index_cases": 1}
+    problem = None
+    loop = asyncio.new_event_loop()
+    asyncio.set_event_loop(loop)
+    _steps_start(scale=40)
+    try:
+        idxs = {}
+        common = tempfile.mkdtemp(prefix="c19cache_", dir=shm) if case["cache"].startswith("fs") else None
+        if common:
+            tmpdirs.append(common)
+        for m in models:
+            d = common
+            if case["cache"].startswith("fs") and not shared_dir:
+                d = tempfile.mkdtemp(prefix="c19cache_", dir=shm)
+                tmpdirs.append(d)
+            idxs[m] = W["basic"].BasicEmbeddingsIndex(embedding_model=m, embedding_engine="verif_gated_c19", cache_config=_cache_cfg(case["cache"], d),
+                                                      use_batching=case["batching"], max_batch_size=3, max_batch_hold=0.01)
+        II = W["IndexItem"]
+
+        async def go():
+            nonlocal problem
+            plan = [(m, t) for t in texts for m in models]
+            if case.get("shuffle"):
+                rng.shuffle(plan)
+            for m, t in plan:
+                got = _as_lists(await asyncio.wait_for(idxs[m]._get_embeddings([t]), 30))
+                obs["requests"] += 1
+                obs["vectors_compared"] += 1
+                if got != [fm(m, t)]:
+                    other = next((o for o in models if o != m and got == [fm(o, t)]), None)
+                    problem = ("vector-of-another-index-model" if other else "wrong-vector", {"index_model": m, "text": t, "got_is_vector_of_model": other, "got": got[0][:3], "expected": fm(m, t)[:3]})
+                    return
+            for m in models:
+                await idxs[m].add_items([II(text=t) for t in dict.fromkeys(texts)])
+                await idxs[m].build()
+            for m in models:
+                for t in list(dict.fromkeys(texts))[:3]:
+                    res = await asyncio.wait_for(idxs[m].search(t, max_results=len(texts)), 30)
+                    obs["requests"] += 1
+                    obs["searches_compared"] += 1
+                    if not res or res[0].text != t:
+                        problem = ("search-misses-own-text", {"index_model": m, "query": t, "first_hit": res[0].text if res else None})
+                        return
+
+        loop.run_until_complete(go())
+    except Exception as e:
+        problem = ("exception:%s" % type(e).__name__, {"exception": repr(e)[:300]})
+    finally:
+        _steps_stop()
+        try:
+            loop.close()
+        except Exception:
+            pass
+        for d in tmpdirs:
+            shutil.rmtree(d, ignore_errors=True)
+        _CUR[0] = None
+    key = repr(("twoidx", case["cache"], models, texts, case["batching"], bool(shared_dir), bool(case.get("shuffle"))))
+    if problem:
+        return dict(base, key=key, verdict="violated", observed=obs, mech=problem[0], witness=dict(problem[1], config=sample))
+    return dict(base, key=key, verdict="held", observed=obs)
+
+
 def run_case(case):
     import os
     import shutil
     import tempfile
+
+    if case.get("fam") == "twoidx":
+        return run_twoidx(case)
 
     W = _W
     asyncio, steps = W["asyncio"], W["steps"]
@@ -620,4 +722,4 @@ def run_case(case):
 
 
 def classify(r):
-    return r.get("mechanism") or r.get("witness", {}).get("mechanism", "unclassified")
+    return r.get("mechanism") or r.get("mech") or r.get("witness", {}).get("mechanism", "unclassified")
